@@ -95,6 +95,24 @@ func substitute(format string, args map[string]string) (res string, spans []refs
 	return b.String(), spans, missing
 }
 
+// lowerHex lower-cases the hex digits of %XX triplets: the property does not fix their case.
+func lowerHex(s string) string {
+	b := []byte(s)
+	for i := 0; i+2 < len(b); i++ {
+		if b[i] == '%' && isHexB(b[i+1]) && isHexB(b[i+2]) {
+			for j := i + 1; j <= i+2; j++ {
+				if 'A' <= b[j] && b[j] <= 'F' {
+					b[j] += 32
+				}
+			}
+			i += 2
+		}
+	}
+	return string(b)
+}
+
+func isHexB(c byte) bool { return '0' <= c && c <= '9' || 'a' <= c && c <= 'f' || 'A' <= c && c <= 'F' }
+
 func interesting(ss ...string) bool {
 	for _, s := range ss {
 		if strings.ContainsAny(s, "./\\?#%&=: ") {
@@ -149,7 +167,7 @@ func checkFormat(c *core.Ctx, format string, args map[string]string, viaConst bo
 		c.Violation(k, "format %+q was accepted although an argument is missing (args %v): %+q", format, args, res.String())
 		return
 	}
-	if res.String() != want {
+	if lowerHex(res.String()) != lowerHex(want) {
 		c.Violation(k, "Format(%+q, %v)=%+q, independent substitution gives %+q", format, args, res.String(), want)
 		return
 	}
@@ -188,7 +206,7 @@ func checkAppend(c *core.Ctx, base, s string) {
 		return
 	}
 	e := refs.Enc(s)
-	if res.String() != base+e {
+	if lowerHex(res.String()) != lowerHex(base+e) {
 		c.Violation(k, "Append(%+q, %+q)=%+q, want %+q", base, s, res.String(), base+e)
 		return
 	}
@@ -270,7 +288,7 @@ func checkParams(c *core.Ctx, base string, params map[string]string) {
 		c.Violation(k, "WithParams(%+q, %v)=%+q: added part %+q does not start with %+q", base, params, res, added, sep)
 		return
 	}
-	got := strings.Split(added[len(sep):], "&")
+	got := strings.Split(lowerHex(added[len(sep):]), "&")
 	sort.Strings(got)
 	if strings.Join(got, "\x00") != strings.Join(want, "\x00") {
 		c.Violation(k, "WithParams(%+q, %v)=%+q: added pairs %q, want (in any order) %q", base, params, res, got, want)
